@@ -228,6 +228,9 @@ class C07(Check):
             out.append({'kind': 'esc', 's': s})
         for i in range(n // 2):
             out.append({'kind': 'doc', 'tree': plain_tree(rng), 'ns': None if i % 3 else BASE})
+        from cases import builders_gen as BG
+        for i in range(n):
+            out.append(BG.gen(rng, plain_tree))
         for i in range(n // 4):
             # the <rpc> envelope around a namespace-free operation tree, with a message-id that may contain anything
             out.append({'kind': 'env', 'tree': plain_tree(rng), 'mid': rng.choice(['urn:uuid:0', nasty(rng), nasty(rng)]),
@@ -244,6 +247,9 @@ class C07(Check):
             r = self._rows[case['i']]
             return {kk: r.get(kk) for kk in ('op', 'profile', 'shape', 'args', 'capsMode', 'outcome', 'nsent', 'asserted', 'probedMinus', 'outsider',
                                              'rootNs', 'rootName', 'hasMsgId', 'nOps', 'opNs', 'opName', 'params', 'sentinels', 'enumLeaves')}
+        if k == 'build':
+            from cases import builders_gen as BG
+            return BG.run_impl(case, plain_build, plain_from_etree)
         if k == 'env':
             from impl.rpcstub import make_manager
             from ncclient.operations.rpc import RPC
@@ -356,11 +362,17 @@ class C07(Check):
             return ['xd rt ' + ' '.join(plain_toks(case['tree']))]
         if case['kind'] == 'env':
             return ['xd rpc %s %s %s' % (hexs('nc:'), hexs(case['mid']), ' '.join(plain_toks(case['tree'])))]
+        if case['kind'] == 'build':
+            from cases import builders_gen as BG
+            return [BG.model_line(case)]
         return []
 
     def model_obs(self, case, outs):
         if case['kind'] == 'esc':
             return {'esctext': unhexs(outs[0]), 'escattr': unhexs(outs[1])}
+        if case['kind'] == 'build':
+            from cases import builders_gen as BG
+            return BG.model_obs(outs[0])
         if case['kind'] == 'env':
             t = outs[0].split(' ')
             return {'ser': unhexs(t[0]), 'mid': None if t[1] in ('-', 'none') else unhexs(t[1])} if len(t) == 2 else {'bad': outs[0]}
@@ -378,6 +390,9 @@ class C07(Check):
             for k in ('esctext', 'escattr'):
                 if io[k] != mo[k]:
                     return '%s of %r: lxml %r, model %r' % (k, case['s'][:40], io[k][:80], mo[k][:80])
+        if case['kind'] == 'build':
+            from cases import builders_gen as BG
+            return BG.compare(case, io, mo)
         if case['kind'] == 'env':
             if 'unbuildable' in io:
                 return None
@@ -411,6 +426,9 @@ class C07(Check):
             if io['readtext'] != case['s'] or io['readattr'] != case['s']:
                 return ('C07:escape-roundtrip', 'string %r does not survive serialise + independent parse' % case['s'][:60])
             return None
+        if k == 'build':
+            from cases import builders_gen as BG
+            return BG.oracle(case, io, 'C07')
         if k == 'env':
             if 'unbuildable' in io:
                 return None
@@ -479,6 +497,8 @@ class C07(Check):
             return io['outcome'] == 'sent' and bool(io.get('sentinels'))
         if case['kind'] == 'esc':
             return any(c in case['s'] for c in '<>&"\r\n\t')
+        if case['kind'] == 'build':
+            return io.get('out') == 'ok'
         if case['kind'] in ('doc', 'env'):
             return 'ser' in io and any(c in io['ser'] for c in ('&lt;', '&amp;', '&quot;', '&#13;'))
         return io.get('sent') == 1
